@@ -33,13 +33,17 @@ func (m *ModelServer) ListWasteRecords(ctx context.Context, req *traits.ListWast
 	// this works with the current basic implementation because we only support a list of all events without filtering/sorting
 	// and the events are stored in ascending chronological order. If this either of these things change, this will need to be rethought
 	pageToken := req.GetPageToken()
-	startIndex := m.model.GetWasteRecordCount()
+	recordCount := m.model.GetWasteRecordCount()
+	startIndex := recordCount
 	if pageToken != "" {
 		_, err := strconv.Atoi(req.GetPageToken())
 		if err != nil {
 			return nil, err
 		}
 		startIndex, _ = strconv.Atoi(pageToken)
+		if startIndex < 0 || startIndex > recordCount {
+			return nil, status.Errorf(codes.InvalidArgument, "bad page token: index %d out of range", startIndex)
+		}
 	}
 
 	count := req.PageSize
